@@ -36,7 +36,7 @@ macro "tr_shyps" : tactic => `(tactic| (
   try simp (disch := tr_sdisch) only [tr_eq] at *
   try simp only [checkedI32, checkedI64, Tr.checkedU32, Tr.checkedU64, Time.validateHms, Time.tryFromHms, Time.tryFromUsecs,
     Date.validateYmd, Date.tryFromYmd, Date.tryFromDays, Date.addDays, Date.subDays, Timestamp.tryFromUsecs,
-    Timestamp.addIntervalDt, Timestamp.subIntervalDt, Timestamp.addTime, Timestamp.subTime, IntervalYM.tryFromMonths,
+    Timestamp.addDays, Timestamp.subDays, Timestamp.addIntervalDt, Timestamp.subIntervalDt, Timestamp.addTime, Timestamp.subTime, IntervalYM.tryFromMonths,
     IntervalYM.tryFromYm, IntervalYM.addIntervalYm, IntervalDT.tryFromUsecs, IntervalDT.tryFromDhms, IntervalDT.addIntervalDt,
     OracleDate.tryFromUsecs, Time.isValid, Date.isValid, IntervalYM.isValidYm, IntervalDT.isValid,
     Bool.false_eq_true, reduceCtorEq, Except.ok.injEq, Except.error.injEq, Option.some.injEq,
@@ -48,7 +48,7 @@ macro "tr_shyps" : tactic => `(tactic| (
 
 
 /-- every generated predicate (second chance: open the callee's predicate instead of citing its theorem) -/
-macro "tr_sunfold" : tactic => `(tactic| simp only [Tr.date2julian_safe, Tr.julian2date_safe, Tr.is_leap_year_safe, Tr.is_valid_date_safe, Tr.is_valid_timestamp_safe, Tr.is_valid_time_safe, Tr.days_of_month_safe, Tr.the_day_of_year_safe, Tr.Timestamp.new_safe, Tr.Timestamp.extract_safe, Tr.Timestamp.date_safe, Tr.Timestamp.time_safe, Tr.Timestamp.try_from_usecs_safe, Tr.Timestamp.add_interval_dt_safe, Tr.Timestamp.sub_interval_dt_safe, Tr.Timestamp.add_time_safe, Tr.Timestamp.sub_time_safe, Tr.Timestamp.sub_timestamp_safe, Tr.Timestamp.sub_date_safe, Tr.Timestamp.add_interval_ym_safe, Tr.Timestamp.sub_interval_ym_safe, Tr.Timestamp.last_day_of_month_safe, Tr.Timestamp.trunc_day_safe, Tr.Timestamp.trunc_hour_safe, Tr.Timestamp.trunc_minute_safe, Tr.Time.from_hms_unchecked_safe, Tr.Time.try_from_hms_safe, Tr.Time.is_valid_safe, Tr.Time.validate_hms_safe, Tr.Time.try_from_usecs_safe, Tr.Time.extract_safe, Tr.Time.sub_time_safe, Tr.Time.add_interval_dt_safe, Tr.Time.sub_interval_dt_safe, Tr.Time.from_interval_dt_safe, Tr.IntervalYM.from_ym_unchecked_safe, Tr.IntervalYM.try_from_ym_safe, Tr.IntervalYM.is_valid_ym_safe, Tr.IntervalYM.is_valid_months_safe, Tr.IntervalYM.try_from_months_safe, Tr.IntervalYM.extract_safe, Tr.IntervalYM.negate_safe, Tr.IntervalYM.add_interval_ym_safe, Tr.IntervalYM.sub_interval_ym_safe, Tr.IntervalYM.cmp_safe, Tr.IntervalDT.from_dhms_unchecked_safe, Tr.IntervalDT.try_from_dhms_safe, Tr.IntervalDT.is_valid_safe, Tr.IntervalDT.is_valid_usecs_safe, Tr.IntervalDT.try_from_usecs_safe, Tr.IntervalDT.extract_safe, Tr.IntervalDT.negate_safe, Tr.IntervalDT.add_interval_dt_safe, Tr.IntervalDT.sub_interval_dt_safe, Tr.IntervalDT.sub_time_safe, Tr.Date.from_ymd_unchecked_safe, Tr.Date.try_from_ymd_safe, Tr.Date.is_valid_safe, Tr.Date.validate_ymd_safe, Tr.Date.try_from_days_safe, Tr.Date.extract_safe, Tr.Date.and_zero_time_safe, Tr.Date.and_time_safe, Tr.Date.and_hms_safe, Tr.Date.add_days_safe, Tr.Date.sub_days_safe, Tr.Date.sub_date_safe, Tr.Date.day_of_week_safe, Tr.Date.add_interval_ym_internal_safe, Tr.Date.last_day_of_month_safe, Tr.Date.partial_cmp_timestamp_safe, Tr.Date.eq_timestamp_safe, Tr.OracleDate.new_safe, Tr.OracleDate.is_valid_date_safe, Tr.OracleDate.try_from_usecs_safe, Tr.OracleDate.from_timestamp_safe, Tr.OracleDate.add_interval_dt_safe, Tr.OracleDate.add_interval_ym_safe, Tr.OracleDate.sub_interval_dt_safe, Tr.OracleDate.sub_interval_ym_safe] at *)
+macro "tr_sunfold" : tactic => `(tactic| simp only [Tr.date2julian_safe, Tr.julian2date_safe, Tr.is_leap_year_safe, Tr.is_valid_date_safe, Tr.is_valid_timestamp_safe, Tr.is_valid_time_safe, Tr.days_of_month_safe, Tr.the_day_of_year_safe, Tr.Timestamp.new_safe, Tr.Timestamp.extract_safe, Tr.Timestamp.date_safe, Tr.Timestamp.time_safe, Tr.Timestamp.try_from_usecs_safe, Tr.Timestamp.add_interval_dt_safe, Tr.Timestamp.sub_interval_dt_safe, Tr.Timestamp.add_time_safe, Tr.Timestamp.sub_time_safe, Tr.Timestamp.sub_timestamp_safe, Tr.Timestamp.sub_date_safe, Tr.Timestamp.add_interval_ym_safe, Tr.Timestamp.sub_interval_ym_safe, Tr.Timestamp.last_day_of_month_safe, Tr.Timestamp.trunc_day_safe, Tr.Timestamp.trunc_hour_safe, Tr.Timestamp.trunc_minute_safe, Tr.Time.from_hms_unchecked_safe, Tr.Time.try_from_hms_safe, Tr.Time.is_valid_safe, Tr.Time.validate_hms_safe, Tr.Time.try_from_usecs_safe, Tr.Time.extract_safe, Tr.Time.sub_time_safe, Tr.Time.add_interval_dt_safe, Tr.Time.sub_interval_dt_safe, Tr.Time.from_interval_dt_safe, Tr.IntervalYM.from_ym_unchecked_safe, Tr.IntervalYM.try_from_ym_safe, Tr.IntervalYM.is_valid_ym_safe, Tr.IntervalYM.is_valid_months_safe, Tr.IntervalYM.try_from_months_safe, Tr.IntervalYM.extract_safe, Tr.IntervalYM.negate_safe, Tr.IntervalYM.add_interval_ym_safe, Tr.IntervalYM.sub_interval_ym_safe, Tr.IntervalYM.cmp_safe, Tr.IntervalDT.from_dhms_unchecked_safe, Tr.IntervalDT.try_from_dhms_safe, Tr.IntervalDT.is_valid_safe, Tr.IntervalDT.is_valid_usecs_safe, Tr.IntervalDT.try_from_usecs_safe, Tr.IntervalDT.extract_safe, Tr.IntervalDT.negate_safe, Tr.IntervalDT.add_interval_dt_safe, Tr.IntervalDT.sub_interval_dt_safe, Tr.IntervalDT.sub_time_safe, Tr.IntervalYM.mul_f64_safe, Tr.IntervalYM.div_f64_safe, Tr.IntervalDT.mul_f64_safe, Tr.IntervalDT.div_f64_safe, Tr.IntervalDT.second_safe, Tr.Time.mul_f64_safe, Tr.Time.div_f64_safe, Tr.Time.second_safe, Tr.Timestamp.add_days_safe, Tr.Timestamp.sub_days_safe, Tr.Timestamp.second_safe, Tr.OracleDate.add_days_safe, Tr.OracleDate.sub_days_safe, Tr.OracleDate.sub_date_safe, Tr.Timestamp.oracle_add_days_safe, Tr.Timestamp.oracle_sub_days_safe, Tr.Date.from_ymd_unchecked_safe, Tr.Date.try_from_ymd_safe, Tr.Date.is_valid_safe, Tr.Date.validate_ymd_safe, Tr.Date.try_from_days_safe, Tr.Date.extract_safe, Tr.Date.and_zero_time_safe, Tr.Date.and_time_safe, Tr.Date.and_hms_safe, Tr.Date.add_days_safe, Tr.Date.sub_days_safe, Tr.Date.sub_date_safe, Tr.Date.day_of_week_safe, Tr.Date.add_interval_ym_internal_safe, Tr.Date.last_day_of_month_safe, Tr.Date.partial_cmp_timestamp_safe, Tr.Date.eq_timestamp_safe, Tr.OracleDate.new_safe, Tr.OracleDate.is_valid_date_safe, Tr.OracleDate.try_from_usecs_safe, Tr.OracleDate.from_timestamp_safe, Tr.OracleDate.add_interval_dt_safe, Tr.OracleDate.add_interval_ym_safe, Tr.OracleDate.sub_interval_dt_safe, Tr.OracleDate.sub_interval_ym_safe] at *)
 
 macro "tr_sintro" : tactic => `(tactic| repeat' (first
   | exact True.intro
@@ -618,6 +618,113 @@ theorem valid_ts_date (ts : Int) (hts : isValidTimestamp ts) : isValidDate (ts /
 @[tr_safe] theorem Date.eq_timestamp_safe (d ts : Int) (hd : isValidDate d) (hts : isValidTimestamp ts) :
     Tr.Date.eq_timestamp_safe d ts := by
   unfold Tr.Date.eq_timestamp_safe
+  tr_safe_auto
+
+/-! ## The functions that go through `f64` (phase 3): float operations never panic, so only the integer nodes around
+    them carry obligations; the saturating casts `as i64/i32/u32` deliver a value of the target type. -/
+
+theorem toIntSat_range (lo hi : Int) (h0 : lo ≤ 0) (h1 : 0 ≤ hi) (x : F64) :
+    lo ≤ F64.toIntSat lo hi x ∧ F64.toIntSat lo hi x ≤ hi := by
+  unfold F64.toIntSat
+  cases x with
+  | nan => exact ⟨h0, h1⟩
+  | inf s => dsimp only; split <;> omega
+  | fin s m e => dsimp only; split <;> (try split) <;> omega
+
+@[tr_safe] theorem fitsI64_toI64 (x : F64) : fitsI64 (F64.toI64 x) :=
+  toIntSat_range I64_MIN I64_MAX (by decide) (by decide) x
+@[tr_safe] theorem fitsI32_toI32 (x : F64) : fitsI32 (F64.toI32 x) :=
+  toIntSat_range I32_MIN I32_MAX (by decide) (by decide) x
+@[tr_safe] theorem fitsU32_toU32 (x : F64) : fitsU32 (F64.toU32 x) :=
+  toIntSat_range 0 U32_MAX (by decide) (by decide) x
+
+@[tr_safe] theorem IntervalYM.mul_f64_safe (v : Int) (x : F64) (hv : IntervalYM.isValidMonths v) :
+    Tr.IntervalYM.mul_f64_safe v x := by
+  unfold Tr.IntervalYM.mul_f64_safe
+  tr_safe_auto
+
+@[tr_safe] theorem IntervalYM.div_f64_safe (v : Int) (x : F64) (hv : IntervalYM.isValidMonths v) :
+    Tr.IntervalYM.div_f64_safe v x := by
+  unfold Tr.IntervalYM.div_f64_safe
+  tr_safe_auto
+
+@[tr_safe] theorem IntervalDT.mul_f64_safe (v : Int) (x : F64) (hv : IntervalDT.isValidUsecs v) :
+    Tr.IntervalDT.mul_f64_safe v x := by
+  unfold Tr.IntervalDT.mul_f64_safe
+  tr_safe_auto
+
+@[tr_safe] theorem IntervalDT.div_f64_safe (v : Int) (x : F64) (hv : IntervalDT.isValidUsecs v) :
+    Tr.IntervalDT.div_f64_safe v x := by
+  unfold Tr.IntervalDT.div_f64_safe
+  tr_safe_auto
+
+@[tr_safe] theorem IntervalDT.second_safe (v : Int) (hv : IntervalDT.isValidUsecs v) :
+    Tr.IntervalDT.second_safe v := by
+  unfold Tr.IntervalDT.second_safe
+  tr_safe_auto
+
+@[tr_safe] theorem Time.mul_f64_safe (t : Int) (x : F64) (ht : isValidTime t) :
+    Tr.Time.mul_f64_safe t x := by
+  unfold Tr.Time.mul_f64_safe
+  tr_safe_auto
+
+@[tr_safe] theorem Time.div_f64_safe (t : Int) (x : F64) (ht : isValidTime t) :
+    Tr.Time.div_f64_safe t x := by
+  unfold Tr.Time.div_f64_safe
+  tr_safe_auto
+
+@[tr_safe] theorem Time.second_safe (t : Int) (ht : isValidTime t) :
+    Tr.Time.second_safe t := by
+  unfold Tr.Time.second_safe
+  tr_safe_auto
+
+@[tr_safe] theorem Timestamp.add_days_safe (ts : Int) (x : F64) (hts : isValidTimestamp ts) :
+    Tr.Timestamp.add_days_safe ts x := by
+  unfold Tr.Timestamp.add_days_safe
+  tr_safe_auto
+
+@[tr_safe] theorem Timestamp.sub_days_safe (ts : Int) (x : F64) (hts : isValidTimestamp ts) :
+    Tr.Timestamp.sub_days_safe ts x := by
+  unfold Tr.Timestamp.sub_days_safe
+  tr_safe_auto
+
+@[tr_safe] theorem Timestamp.second_safe (ts : Int) (hts : isValidTimestamp ts) :
+    Tr.Timestamp.second_safe ts := by
+  unfold Tr.Timestamp.second_safe
+  tr_safe_auto
+
+@[tr_safe] theorem OracleDate.add_days_safe (od : Int) (x : F64) (hod : OracleDate.isValidDate od) :
+    Tr.OracleDate.add_days_safe od x := by
+  unfold Tr.OracleDate.add_days_safe
+  tr_safe_auto
+
+@[tr_safe] theorem OracleDate.sub_days_safe (od : Int) (x : F64) (hod : OracleDate.isValidDate od) :
+    Tr.OracleDate.sub_days_safe od x := by
+  unfold Tr.OracleDate.sub_days_safe
+  tr_safe_auto
+
+@[tr_safe] theorem OracleDate.sub_date_safe (a b : Int) (ha : OracleDate.isValidDate a) (hb : OracleDate.isValidDate b) :
+    Tr.OracleDate.sub_date_safe a b := by
+  unfold Tr.OracleDate.sub_date_safe
+  tr_safe_auto
+
+/-- flooring a valid timestamp to the second gives a valid Oracle-style date -/
+theorem fromTimestamp_valid (ts : Int) (hts : isValidTimestamp ts) :
+    OracleDate.isValidDate (OracleDate.fromTimestamp ts) := by
+  unfold OracleDate.fromTimestamp OracleDate.isValidDate
+  dsimp only
+  split <;> (constructor <;> tr_leaf)
+
+@[tr_safe] theorem Timestamp.oracle_add_days_safe (ts : Int) (x : F64) (hts : isValidTimestamp ts) :
+    Tr.Timestamp.oracle_add_days_safe ts x := by
+  unfold Tr.Timestamp.oracle_add_days_safe
+  have hv := fromTimestamp_valid ts hts
+  tr_safe_auto
+
+@[tr_safe] theorem Timestamp.oracle_sub_days_safe (ts : Int) (x : F64) (hts : isValidTimestamp ts) :
+    Tr.Timestamp.oracle_sub_days_safe ts x := by
+  unfold Tr.Timestamp.oracle_sub_days_safe
+  have hv := fromTimestamp_valid ts hts
   tr_safe_auto
 
 end SqlDt.TrSafe
